@@ -26,9 +26,6 @@ type (
 	pSigned = fg.SignedPrecommit[pHash, pNum, pgrandpa.AuthoritySignature, pgrandpa.AuthorityID]
 )
 
-// genNZHash: hash.H256 decodes 32 zero bytes to the empty string (same
-// encoding, different Go value), so value comparisons use non-zero hashes and
-// the zero hash is covered by the byte comparisons only.
 func toPSigned(s mSignedVote) pSigned {
 	return pSigned{
 		Precommit: fg.Precommit[pHash, pNum]{TargetHash: pHash(s.vote.hash[:]), TargetNumber: s.vote.number},
@@ -44,7 +41,9 @@ func refSignedVotes(e *enc, vs []mSignedVote) {
 	}
 }
 
-// sameH256 compares a decoded H256 with 32 expected bytes (a decoded zero hash may be "").
+// sameH256 compares a decoded H256 with 32 expected bytes. hash.H256 decodes 32
+// zero bytes to the empty string (same encoding, different Go value; nothing
+// in the property fixes the Go representation), so "" is accepted for zero.
 func sameH256(h pHash, want [32]byte) bool {
 	var got [32]byte
 	copy(got[:], h.Bytes())
